@@ -172,7 +172,15 @@ def run(ctx):
                 if v:
                     res["violations"].append({"key": "C08:ledger-prints:%s" % label, "what": v})
             keys = model_keys(pk_value)
-            lterms.append(vc.to_lcase(keys, rec.get("result"), obs))
+            try:
+                lterms.append(vc.to_lcase(keys, rec.get("result"), obs))
+            except (AssertionError, ValueError, TypeError, KeyError) as e:
+                # an observation the model's types cannot even express (e.g. a negative number printed where an
+                # unsigned one is documented): reported, not compared
+                res["violations"].append({"key": "C08:ledger-prints-inexpressible:%s" % label,
+                                          "what": "printed values cannot be a rendering of the signed messages "
+                                                  "(%s: %s)" % (type(e).__name__, e), "stdout": out[-300:]})
+                continue
             ldescs.append({"label": label, "error": err, "stdout": out[-300:]})
             if len(res["samples"]) < 2:
                 res["samples"].append({"label": label, "error": err})
